@@ -90,6 +90,26 @@ func replayC17(c *Ctx, ev *Evidence, harness string, r UnitResult) (*Violation, 
 	case strings.HasPrefix(id, "C17-order-"), strings.HasPrefix(id, "C17-accumulate-"):
 		// two overlapping rules for one attribute of one element, in both orders
 		kind := int(r.Notes["kind"].I)
+		if kind == 4 {
+			// names grouped into one AllowElements call, then a rule for one of them
+			grouped := []NativeReq{{"op": "base", "name": "New"}, {"op": "AllowElements", "names": []string{"x", "y"}}, {"op": "AllowAttrs", "attrs": []string{"k"}, "matching": "^one$", "elements": []string{"x"}}}
+			apart := []NativeReq{{"op": "base", "name": "New"}, {"op": "AllowAttrs", "attrs": []string{"k"}, "matching": "^one$", "elements": []string{"x"}}, {"op": "AllowElements", "names": []string{"x"}}, {"op": "AllowElements", "names": []string{"y"}}}
+			in := `<x k="one">a</x><y k="one">b</y>`
+			reqs = []NativeReq{{"op": "sanitize", "policy": grouped, "input": in}, {"op": "sanitize", "policy": apart, "input": in}}
+			nres, err := RunNative(c.Repo, c.VerifDir, reqs, "")
+			if err != nil {
+				return nil, err
+			}
+			o1, _ := nres[0]["output"].(string)
+			o2, _ := nres[1]["output"].(string)
+			ev.Sample(map[string]interface{}{"query": "C17 counterexample " + id, "what": "AllowElements(x, y) then a rule on x, against the same rules registered apart", "out1": o1, "out2": o2})
+			if o1 != o2 {
+				ev.AddReplayed(1)
+				return &Violation{Sig: "site=builder " + id, Detail: fmt.Sprintf("the same rule set registered with grouped and with separate AllowElements calls gives %q and %q", o1, o2), Replay: reqs}, nil
+			}
+			ev.Inconclusive(fmt.Sprintf("C17: %s fails symbolically (grouped AllowElements) but the native probe agrees", id))
+			return nil, nil
+		}
 		rule := func(val string) NativeReq {
 			switch kind {
 			case 1:
